@@ -24,6 +24,21 @@
  *         C <0 = NULL | 1> <errno> <cat> <ncb> <leaked blocks> <digest global>|<digest cal 0>|...
  *       then END
  *
+ *   exp <setup,setup,...|->
+ *       the tree is built as above and exported with vnaproperty_export_yaml_to_file to a memory stream, once
+ *       without fault and once per allocation request k of the export failing; output
+ *         O <digest of the tree> <requests> <ret> <digest of the re-imported text | ->
+ *         X <k> <fired> <ret> <errno> <cat> <ncb> <digest of the re-imported text | -> <blocks left by the export>
+ *       (the text of an export that returned 0 is imported, without fault, into a fresh root) then END
+ *
+ *   sav <setup,setup,...|->
+ *       a vnacal_t with one T8 calibration gets the tree as global AND as per-calibration properties; vnacal_save
+ *       to $PROP_TMP/atomic_<pid>.vnacal once without fault and once per allocation request failing; a save that
+ *       returned 0 is read back with vnacal_load (no fault); output
+ *         O <digest global>|<digest cal> <requests> <ret> <digests read back | ->
+ *         X <k> <fired> <ret> <errno> <cat> <ncb> <digests read back | - | !load errno>
+ *       then END
+ *
  * Digests are taken through the public getters only (type / count / keys / get / get_subtree with quote_key),
  * except the list allocation (vnaproperty_internal.h), as in prop_harness.c.
  */
@@ -346,6 +361,144 @@ int main(void)
 	    remove(path);
 	    fputs("END\n", o);
 	    free(text);
+	} else if (strcmp(w[0], "exp") == 0 && nw == 2) {
+	    vnaproperty_t *root = NULL;
+	    char *setups = strdup(w[1]);
+	    char *orig = NULL; size_t ol = 0;
+	    FILE *oo;
+	    long requests = 0;
+
+	    verif_alloc_reset(0);
+	    verif_alloc_track(1);
+	    if (build_root(&root, setups)) { fprintf(stderr, "setup refused\n"); exit(2); }
+	    verif_alloc_track(0);
+	    oo = open_memstream(&orig, &ol); digest(oo, root); fclose(oo);
+	    for (long k = 0; k <= requests && k <= 2000; ++k) {
+		char *text = NULL; size_t tl = 0;
+		FILE *tf = open_memstream(&text, &tl);
+		long live0 = verif_live_blocks(), left, fired;
+		int ret, e;
+		char *re = NULL; size_t rl = 0;
+
+		cb_count = 0; cb_cat = -1;
+		verif_alloc_reset(k);
+		verif_alloc_track(1);
+		errno = 0;
+		ret = vnaproperty_export_yaml_to_file(root, tf, "mem", errfn, NULL);
+		e = errno;
+		verif_alloc_track(0);
+		fired = verif_failed;
+		if (k == 0)
+		    requests = verif_alloc_count;
+		verif_alloc_reset(0);
+		left = verif_live_blocks() - live0;
+		fclose(tf);
+		if (ret == 0) {
+		    vnaproperty_t *r2 = NULL;
+		    FILE *ro = open_memstream(&re, &rl);
+		    int saved_count = cb_count, saved_cat = cb_cat;
+		    if (vnaproperty_import_yaml_from_string(&r2, text, errfn, NULL) == -1)
+			fputs("!import", ro);
+		    else
+			digest(ro, r2);
+		    fclose(ro);
+		    _vnaproperty_free_tree(&r2);
+		    cb_count = saved_count; cb_cat = saved_cat;
+		}
+		if (k == 0)
+		    fprintf(o, "O %s %ld %d %s\n", orig, requests, ret, re ? re : "-");
+		else
+		    fprintf(o, "X %ld %ld %d %d %d %d %s %ld\n", k, fired, ret, e, cb_cat, cb_count, re ? re : "-", left);
+		free(re); free(text);
+	    }
+	    _vnaproperty_free_tree(&root);
+	    free(orig); free(setups);
+	    fputs("END\n", o);
+	} else if (strcmp(w[0], "sav") == 0 && nw == 2) {
+	    const char *dir = getenv("PROP_TMP");
+	    char path[4096];
+	    vnacal_t *vcp;
+	    vnacal_new_t *vnp;
+	    double f[1] = { 1.0e9 };
+	    double complex m[1];
+	    double complex *mp[1] = { m };
+	    int ci;
+	    long requests = 0;
+	    char *orig = NULL; size_t ol = 0;
+	    FILE *oo;
+
+	    snprintf(path, sizeof(path), "%s/atomic_%ld.vnacal", dir ? dir : "/tmp", (long)getpid());
+	    verif_alloc_track(0);
+	    verif_alloc_reset(0);
+	    if ((vcp = vnacal_create(errfn, NULL)) == NULL) exit(3);
+	    vnp = vnacal_new_alloc(vcp, VNACAL_T8, 1, 1, 1);
+	    if (vnp == NULL || vnacal_new_set_frequency_vector(vnp, f) == -1) exit(3);
+	    m[0] = -0.9; if (vnacal_new_add_single_reflect_m(vnp, mp, 1, 1, VNACAL_SHORT, 1) == -1) exit(3);
+	    m[0] = 0.9;  if (vnacal_new_add_single_reflect_m(vnp, mp, 1, 1, VNACAL_OPEN, 1) == -1) exit(3);
+	    m[0] = 0.1;  if (vnacal_new_add_single_reflect_m(vnp, mp, 1, 1, VNACAL_MATCH, 1) == -1) exit(3);
+	    if (vnacal_new_solve(vnp) == -1) exit(3);
+	    if (vnacal_add_calibration(vcp, "cal", vnp) == -1) exit(3);
+	    if ((ci = vnacal_find_calibration(vcp, "cal")) == -1) exit(3);
+	    vnacal_new_free(vnp);
+	    if (strcmp(w[1], "-") != 0) {
+		char *setups = strdup(w[1]), *save2 = NULL;
+		for (char *t = strtok_r(setups, ",", &save2); t != NULL; t = strtok_r(NULL, ",", &save2)) {
+		    char *st = unhex(t);
+		    if (vnacal_property_set(vcp, -1, "%s", st) == -1 || vnacal_property_set(vcp, ci, "%s", st) == -1) {
+			fprintf(stderr, "setup refused\n"); exit(2);
+		    }
+		    free(st);
+		}
+		free(setups);
+	    }
+	    oo = open_memstream(&orig, &ol);
+	    digest(oo, vnacal_property_get_subtree(vcp, -1, ".")); fputs("|", oo);
+	    digest(oo, vnacal_property_get_subtree(vcp, ci, "."));
+	    fclose(oo);
+	    for (long k = 0; k <= requests && k <= 2000; ++k) {
+		int ret, e;
+		long fired;
+		char *re = NULL; size_t rl = 0;
+
+		cb_count = 0; cb_cat = -1;
+		remove(path);
+		verif_alloc_reset(k);
+		verif_alloc_track(1);
+		errno = 0;
+		ret = vnacal_save(vcp, path);
+		e = errno;
+		verif_alloc_track(0);
+		fired = verif_failed;
+		if (k == 0)
+		    requests = verif_alloc_count;
+		verif_alloc_reset(0);
+		if (ret == 0) {
+		    int saved_count = cb_count, saved_cat = cb_cat;
+		    FILE *ro = open_memstream(&re, &rl);
+		    vnacal_t *v2;
+		    errno = 0;
+		    v2 = vnacal_load(path, errfn, NULL);
+		    if (v2 == NULL) {
+			fprintf(ro, "!load%d", errno);
+		    } else {
+			int c2 = vnacal_find_calibration(v2, "cal");
+			digest(ro, vnacal_property_get_subtree(v2, -1, ".")); fputs("|", ro);
+			if (c2 < 0) fputs("!nocal", ro); else digest(ro, vnacal_property_get_subtree(v2, c2, "."));
+			vnacal_free(v2);
+		    }
+		    fclose(ro);
+		    cb_count = saved_count; cb_cat = saved_cat;
+		}
+		if (k == 0)
+		    fprintf(o, "O %s %ld %d %s\n", orig, requests, ret, re ? re : "-");
+		else
+		    fprintf(o, "X %ld %ld %d %d %d %d %s 0\n", k, fired, ret, e, cb_cat, cb_count, re ? re : "-");
+		free(re);
+	    }
+	    remove(path);
+	    vnacal_free(vcp);
+	    free(orig);
+	    fputs("END\n", o);
 	} else {
 	    fprintf(stderr, "bad command %s\n", w[0]);
 	    exit(2);
